@@ -338,6 +338,24 @@ def run(ctx, name, kind, **kw):
                 if fx and fy:
                     break
             ds |= {v for v in (fx, fy) if v}
+        # keys whose PEM body happens to spell a word of the armour: a base64 line containing END or BEGIN (about one PEM file in 1300) - found by
+        # walking multiples on the reference and armouring the reference-made DER (public SPKI and RFC 5915 private key)
+        import base64 as _b64
+        d0 = rng.randrange(2, n - 5000)
+        P = dom.curve.mul(d0, dom.G)
+        armour_words = []
+        for i in range(1, 4000 if Lp <= 32 else 1500):
+            P = dom.curve.add(P, dom.G)
+            pub_ = sec1.encode_point(dom, P, "uncompressed")
+            for der_ in (R.spki(tuple(c.oid), pub_), R.ec_private_key((d0 + i).to_bytes(Ln, "big"), tuple(c.oid), pub_)):
+                b_ = _b64.b64encode(der_)
+                if any((b"END" in b_[j:j + 64] or b"BEGIN" in b_[j:j + 64]) for j in range(0, len(b_), 64)):
+                    armour_words.append(d0 + i)
+                    break
+            if len(armour_words) >= 2:
+                break
+        ctx.count("keys_whose_pem_body_spells_an_armour_word", len(armour_words))
+        ds |= set(armour_words)
         for d in sorted(v for v in ds if 1 <= v < n):
             check_key(ctx, c, dom, d, True)
         # public keys nobody knows the scalar of: x = 0 (exists when b is a square), through every public format
